@@ -111,7 +111,11 @@ def call_via_api(case):
     k = len(tasks)
     tr = {"id": case["id"], "kind": "run", "arrkind": "idx", "n": int(n), "s": 0, "arr": [],
           "results": list(range(1, k + 1)) if ok else list(range(k, 0, -1)) + [0]}
-    tr["tasks"] = _norm_tasks_idx(tasks)
+    from .. import collab
+    parsed = [collab.parse_task(t) for t in tasks]
+    if any(p is None or p[0]["kind"] != "range" for p in parsed):
+        return {"id": case["id"], "skip": True, "n": int(n)}       # tasks this harness cannot read: nothing observed, nothing judged
+    tr["tasks"] = [{"lo": p[0]["lo"], "hi": p[0]["hi"], "start": p[0]["start"]} for p in parsed]
     return tr
 
 
@@ -239,6 +243,9 @@ def run(ctx, selftest=False):
                 c["sel"] = "all"          # index arrays are chosen by the library itself on the public paths
         t = call_run_worker(c)
         ctx.count()
+        if t.get("skip"):
+            ctx.notes["pool_calls_not_readable"] = ctx.notes.get("pool_calls_not_readable", 0) + 1
+            continue
         if t["n"] > 1:
             ctx.nontrivial(("run", n_total, sel, c["n_batches"], c["pool_size"], tuple(c.get("idx", [])), c.get("n_prior")))
         traces.append(t)
